@@ -483,6 +483,11 @@ MANIFEST = {
                   'the repertoire for every string, and the tables agree with ISO 32000-1 Annex D '
                   'on printable ASCII and Latin-1; text shown with Tj/TJ over the repertoire is what extract_text returns, also from '
                   'several text objects that share one font selection (C16_extract_shown_blocks). '
+                  'After save and reload (composition with C01_full, both cross-reference formats): get_page_fonts and get_page_content '
+                  '(Model/Query.v) return the same fonts (font dictionaries in normal form, under which get_font_encoding does not change) and the '
+                  'same content bytes on the loaded document, so the extracted text is the text shown (C16_extract_after_save_load, '
+                  'C16_extract_blocks_after_save_load) and, for arbitrary pages, the chunks and text of the document in memory '
+                  '(C16_extract_same_after_save_load); stream format: for documents that do not mention the identifier the cross-reference stream takes. '
                   'Tied to the implementation by differential runs through the public API, incl. save_to + load_mem.',
     'level_note': 'Trusted: Coq kernel; translator (5 tables x 256 cells with 4495 glyph constants resolved, name->table switch, marks, '
                   'payload offsets, TJ threshold); model of Rust std UTF-8/UTF-16 conversions (assumed, tied by correspondence); '
